@@ -371,6 +371,21 @@ ADDENDA["C14"] = ADDENDA.get("C14", " Also:") + " A table after an open partitio
 ADDENDA["C19"] = ADDENDA.get("C19", " Also:") + " Lexer message probes with line ends inside comments / strings and with the illegal character in the first line."
 ADDENDA["C20"] = ADDENDA.get("C20", " Also:") + " Stores to attributes of other repository classes are class-level writes."
 
+# wave 10
+ADDENDA["C01"] = ADDENDA.get("C01", " Also:") + " Different nestings of set operations print different text; the text of an INTERVAL (hostile string probes) stays inside its literal."
+ADDENDA["C03"] = ADDENDA.get("C03", " Also:") + " Operator productions whose right operand is a fixed word (a > LAST) and NOT in infix position (a NOT NULL) take part in the grouping obligations, reduce/reduce with a name production included."
+ADDENDA["C04"] = ADDENDA.get("C04", " Also:") + " The kinds of value the number rules produce (int, float, Decimal) are the kinds the printer table covers; statement-end look-alikes inside literals reach the lexer unchanged."
+ADDENDA["C06"] = ADDENDA.get("C06", " Also:") + " A WITH clause is attached at its own level (nesting) for every target; / is the operator as written (not SQLAlchemy 2's true division) and generic operators carry the precedence of their class."
+ADDENDA["C07"] = ADDENDA.get("C07", " Also:") + " The literal encoders give the same text in any history of renderings (one interpreter, all targets twice); @compiles hooks keep element text inside one literal of the target."
+ADDENDA["C09"] = ADDENDA.get("C09", " Also:") + " from_query resets whatever planning stores in the planner; the time-series join hands only a table / native query on."
+ADDENDA["C10"] = ADDENDA.get("C10", " Also:") + " Planner stand-ins get their catalog from the real __init__; catalogs in which a project is also listed as an integration."
+ADDENDA["C12"] = ADDENDA.get("C12", " Also:") + " An empty value list is a number of values; the bound Constant keeps the placeholder's alias and brackets."
+ADDENDA["C14"] = ADDENDA.get("C14", " Also:") + " Conditions that repeat a model column."
+ADDENDA["C15"] = ADDENDA.get("C15", " Also:") + " LIMIT 0; value-first time conditions (5 < t); every ORDER BY is refused; the data side of the join is a table or native query."
+ADDENDA["C18"] = ADDENDA.get("C18", " Also:") + " Plans built along different histories from equal steps are equal; a field equality ignores is not written by a printer."
+ADDENDA["C19"] = ADDENDA.get("C19", " Also:") + " The parser stand-in carries sly's post-parse state; a candidate whose re-parse a grammar rule refuses is not suggested."
+ADDENDA["C20"] = ADDENDA.get("C20", " Also:") + " The expected tokens handed to the error callback are hash-ordered; from_query resets per-statement planner state."
+
 NA_PENDING = "check under construction in this session; not claimed until its rule module is committed"
 
 
